@@ -5,7 +5,7 @@ From Coq Require Import List Bool ZArith Lia.
 From Otto Require Import C01.Sem C01.Wf C01.Lang C01.Proofs.
 Import ListNotations.
 
-Notation exec_o := (exec_o eval truthy tick recatch val_seq).
+Notation exec_o := (exec_o eval truthy tick recatch val_seq enum live bind).
 Notation st3 := (state * list label * ores val)%type.
 
 Definition ext3 (s : state) (r : st3) : Prop := extends s (fst (fst r)).
@@ -154,7 +154,7 @@ Proof.
   pose proof (tick_extends s) as Ht. destruct (tick s) as [s0 [h|]]; cbn [fst] in *; [exact Ht|].
   assert (Hblk : forall s1 L1 l, extends s1 (fst (fst (oblock (exec_o fuel) s1 L1 l)))).
   { intros. apply (oblock_extends _ IH). }
-  destruct x as [e|l|e s1 s2|e body|body e|init test upd body|l|l|e|l x|e|b c f|e cases].
+  destruct x as [e|l|e s1 s2|e body|body e|init test upd body|l|l|e|l x|e|b c f|e cases|tgt src body].
   - pose proof (eval_extends e s0) as H. destruct (eval s0 e) as [s1 [v|x]]; cbn [fst] in *; eapply extends_trans; eassumption.
   - eapply extends_trans; [exact Ht|]. apply Hblk.
   - pose proof (eval_extends e s0) as H. destruct (eval s0 e) as [s' [v|x]]; cbn [fst] in *; [|eapply extends_trans; eassumption].
@@ -206,4 +206,7 @@ Proof.
     assert (H02 : extends s s2) by (eapply extends_trans; [exact Ht|]; eapply extends_trans; eassumption).
     destruct (switch_target cases r) as [i|]; cbn [fst]; [|exact H02].
     eapply extends_trans; [exact H02|]. apply Hblk.
+  - (* for-in: the subject is evaluated; a MiniJS value has nothing to enumerate *)
+    unfold enum. pose proof (eval_extends src s0) as H1.
+    destruct (eval s0 src) as [s1 [v|x]]; cbn [fst olevels] in *; eapply extends_trans; eassumption.
 Qed.
